@@ -326,15 +326,18 @@ func evalTx(p *preState, spec txSpec, tx *types.Transaction, c concrete) *txResu
 				r.poolLeak = poolDelta != 0
 			}
 		}
-		// weak view: after the revert every caller in the repository performs
-		st.RevertToSnapshot(rev)
-		weak, oerr := observe(st)
-		if oerr != nil {
-			r.fail("state-readable", oerr.Error())
-			return r
-		}
-		if weak.root != before.root || len(diff(before, weak)) != 0 {
-			r.fail("state-unchanged-after-revert", fmt.Sprintf("rejected with %q and reverted to the snapshot, but the state differs: %s", r.errStr, describeDiff(before, weak)))
+		// weak view: after the revert every caller in the repository performs. (When the strict view is already
+		// bit-identical there is nothing a revert could restore; the second read-back is skipped.)
+		if stateDirty {
+			st.RevertToSnapshot(rev)
+			weak, oerr := observe(st)
+			if oerr != nil {
+				r.fail("state-readable", oerr.Error())
+				return r
+			}
+			if weak.root != before.root || len(diff(before, weak)) != 0 {
+				r.fail("state-unchanged-after-revert", fmt.Sprintf("rejected with %q and reverted to the snapshot, but the state differs: %s", r.errStr, describeDiff(before, weak)))
+			}
 		}
 		r.obs = fmt.Sprintf("rejected %q pool %d->%d residue=%v", r.errStr, poolInit, poolAfter, r.residue)
 		return r
